@@ -5,7 +5,7 @@
    the theorems about conflicting_version / pick / disqualify_conflicts
    (Proofs/ResolveConflicts.v) are theorems about the code as it is today. *)
 From Apko Require Import Base.Prelude Generated.VersionConsts Model.Version Model.Resolver Generated.C02Resolver
-  Proofs.ResolveProofs.
+  Proofs.ResolveProofs Proofs.ResolveEnvelope Proofs.ResolveConflicts Spec.ResolveMultiSpec.
 Open Scope string_scope. Open Scope list_scope.
 
 (* the proofs do not follow the shape of the generated terms: they split on whatever
@@ -68,3 +68,47 @@ Qed.
 
 Lemma code_pick_refuses_second R i sel j : alookup (k_name (getp R i)) sel = Some j -> j <> i -> gen_pick R i sel = Err.
 Proof. intros E N. rewrite gen_pick_eq. unfold pick. rewrite E. apply Nat.eqb_neq in N. rewrite N. reflexivity. Qed.
+
+(* ---- constrain ------------------------------------------------------------------------------ *)
+Lemma dq_add_idem j dq : dq_add j (dq_add j dq) = dq_add j dq.
+Proof.
+  unfold dq_add. destruct (mem_pid j dq) eqn:E; [rewrite E; reflexivity|].
+  cbn [mem_pid existsb]. rewrite Nat.eqb_refl. reflexivity.
+Qed.
+
+Lemma gen_constrain_eq R cs dq : gen_constrain R cs dq = constrain R cs dq.
+Proof.
+  unfold gen_constrain, constrain.
+  match goal with |- _ = fold_left ?F _ _ => set (outer := F) end.
+  assert (B : forall l, fold_left outer l Err = Err) by (induction l as [|x l IHl]; [reflexivity | exact IHl]).
+  revert dq. induction cs as [|d t IH]; intros dq; [reflexivity|].
+  simpl fold_left. cbn [rbind].
+  destruct (d_neg d) as [rest|]; [apply IH|].
+  destruct (Z.eqb (s_dep (d_pos d)) dep_versionAny); [apply IH|].
+  destruct (alookup (s_name (d_pos d)) (r_names R)) as [providers|]; [|apply IH].
+  destruct (s_req (d_pos d)) as [req|]; [|symmetry; apply B].
+  (* the loop over the providers, whose end is the rest of the list *)
+  revert dq. induction providers as [|j ps IHp]; intros dq; [apply IH|].
+  simpl fold_left. unfold constrain_provider. fold (s_name (d_pos d)) (s_dep (d_pos d)). rewrite ?(String.eqb_sym (s_name (d_pos d)) (k_name (getp R j))).
+  destruct (String.eqb (k_name (getp R j)) (s_name (d_pos d))); cbn [negb].
+  - repeat (split_goal; finish); finish; apply IHp.
+  - (* the loop over its provides: one dq_add if some provide of that name fails *)
+    generalize dq. induction (k_provs (getp R j)) as [|pv pt IHv]; intros dq0; [apply IHp|].
+    cbn [existsb]. destruct (String.eqb (s_name pv) (s_name (d_pos d))); cbn [negb andb orb]; [|apply IHv].
+    destruct (s_req pv) as [a|]; [destruct (satisfies (s_dep (d_pos d)) a req); cbn [negb orb]; [apply IHv|]|];
+      (rewrite IHv; destruct (existsb _ pt); [rewrite dq_add_idem|]; reflexivity).
+Qed.
+
+(* what the TRANSLATED constrain guarantees (the two facts every closure proof rests on): every provider
+   that fails a versioned positive entry, and everything a conflict entry excludes, is in the returned set *)
+Lemma code_constrain_covers R cs dq dq' : gen_constrain R cs dq = Ok dq' ->
+  incl dq dq' /\
+  (forall d providers req j, In d cs -> d_neg d = None -> (s_dep (d_pos d) =? dep_versionAny)%Z = false ->
+     alookup (s_name (d_pos d)) (r_names R) = Some providers -> s_req (d_pos d) = Some req ->
+     In j providers -> constrain_provider (d_pos d) req (getp R j) = true -> In j dq') /\
+  (forall d c j, In d cs -> d_neg d = Some c -> entry_excludes R c j -> In j dq').
+Proof.
+  rewrite gen_constrain_eq. intros H. split; [eapply constrain_mono; exact H|]. split.
+  - intros d providers req j. apply (constrain_covers R cs dq dq' H).
+  - intros d c j. apply (constrain_excludes R cs dq dq' H).
+Qed.
